@@ -375,6 +375,8 @@ func rulesC08(e *Engine, r *Report) {
 	// ---------------------------------------------------------------- R08.9
 	r.Rule("R08.9", "what counts as already held is held of this version: the sender skips byte ranges after a restart only on the strength of a receiver's partial with the same hash as the file to be sent (same check as R07.11)")
 	checkResumeSameVersion(e, r, "R08.9")
+	// ---------------------------------------------------------------- R08.10
+	e.shareRule(r, "C11", "R11.3", "R08.10", "the remainder after a partial success is split off for every count below the number of parts: Split(n) refuses only n < 1 and n >= len(parts) - refusing len(parts)-1 as well makes `all but the last part received` look like `all received`, and the last part is never sent again")
 }
 
 // constOr renders a package-level string constant as a canonical literal.
